@@ -220,6 +220,24 @@ CHECKS["C08"] = dict(
 NOT_YET = {
 }
 
+# ---- additions of later rounds (appended so that the table above stays as reviewed) ----------------------------------------------------
+CHECKS["C01"]["text"] += (" ExecImpl.tla transcribes the ITERATIVE template executor (the loop of ElemTemplateElement::execute with its invoker / "
+    "nodes-to-transform / current-node / execute-if / context-marker / current-template / buffer stacks, per element kind, with the direct-template and "
+    "single-text-child short cuts); MC_Exec checks output = recursive definition, balanced stacks and termination for every program of <= 5 elements, "
+    "and one program per set of executor transitions is exported and replayed as a real stylesheet (oracle: XSLTSem).")
+CHECKS["C15"]["text"] += (" KeyTableImpl.tla transcribes the key-table walk (with its attribute loop), the per-document lazily built tables, the look-up "
+    "outcomes and FunctionKey's loop over a node-set argument; MC_KeyTable checks them against XSLT 12.2 for every document shape <= 4/5 nodes, and one real "
+    "document per walk-branch signature is replayed.")
+CHECKS["C16"]["text"] += (" SortImpl.tla transcribes NodeSorter (multi-key comparison with per-key, per-position caches and marker values, stable sort); "
+    "MC_SortImpl checks it against the definition (order, strict weak ordering, cache honesty, one evaluation per key and node).")
+CHECKS["C10"]["text"] += (" Every node pushed through apply-templates for which no template event is seen is a pick of the built-in rule; the twin family "
+    "uses match attributes with the same text under different namespace bindings (incl. key() patterns with prefixed key names) and simplified stylesheets among the imports; "
+    "rules may reach xsl:apply-imports through named templates in other modules.")
+CHECKS["C14"]["text"] += (" Every 6th case is run once more on one XSLTEngineImpl driven through its own interface that has just run, and reset() after, a transformation "
+    "aborted with namespace declarations open; it is judged against its XalanTransformer twin.")
+CHECKS["C02"]["text"] += (" Further families: cross-document (id() / current() / unions in predicates on nodes of another document), cross-kind order (unions of text / PI / "
+    "comment / attribute / element children), one XObject factory per run (released value objects are recycled); a case that exceeds its CPU budget is a violation.")
+
 def main():
     props = [json.loads(l) for l in open(os.path.join(ROOT, "properties.jsonl"))]
     checks, na = [], []
